@@ -17,7 +17,8 @@ LEVEL = "fault_enumeration"
 RULE = (
     "a case = NCP version V in {4..14, 15, 16, 31, 255} x device path {serial, socket://} x spontaneous start-up RSTACK "
     "{absent, seen within the 1 s window, late} x second reset performed through {EZSP.reset()+version(), "
-    "stop_ezsp()+startup_reset()} x line faults. Enumerated: every V x path x second-reset mode fault-free, and every "
+    "stop_ezsp()+startup_reset()} x {bring-up only, ordinary traffic after each bring-up, a request between reset() and "
+    "the repeated negotiation} x line faults. Enumerated: every V x path x second-reset mode fault-free, and every "
     "single fault (drop / corrupt / duplicate) on each of the first N frames of a bring-up for every V; plus Hypothesis "
     "multi-fault plans. Non-trivial = V != 4 or a fault hit a frame; distinct by plan."
 )
@@ -90,10 +91,30 @@ async def scenario(loop, plan, r, out):
         out["version_after_startup"] = (ezsp.ezsp_version, type(ezsp._protocol).VERSION)
         if not await step("write_config", lambda: ezsp.write_config({})):
             return
+
+        async def use():
+            # ordinary traffic after bring-up: a plain command and a handler-level helper, both through the EZSP object
+            await ezsp.getEui64()
+            await ezsp.read_counters()
+            await ezsp.nop()
+
+        if plan.get("use"):
+            if not await step("use", use):
+                return
         if plan["second"] == "reset":
             if not await step("reset", lambda: ezsp.reset()):
                 return
             out["version_after_reset"] = (ezsp.ezsp_version, type(ezsp._protocol).VERSION)
+            if plan.get("probe"):
+                # a request made after the reset and before the negotiation is repeated must be framed the legacy way
+                t_a, w_a = loop.time(), len(stack.host_writes)
+                try:
+                    await asyncio.wait_for(ezsp.read_counters(), 0.05)
+                except BaseException:
+                    pass
+                await asyncio.sleep(0.05)
+                out["probe_window"] = (t_a, loop.time())
+                out["probe_frames"] = [f["payload"] for tm, f, raw in stack.host_frames(w_a) if f.get("kind") == "DATA" and not f.get("retx")]
             if not await step("version", lambda: ezsp.version()):
                 return
         else:
@@ -103,7 +124,10 @@ async def scenario(loop, plan, r, out):
             if not await step("startup_reset2", lambda: ezsp.startup_reset()):
                 return
         out["version_after_second"] = (ezsp.ezsp_version, type(ezsp._protocol).VERSION)
-        await step("write_config2", lambda: ezsp.write_config({}))
+        if not await step("write_config2", lambda: ezsp.write_config({})):
+            return
+        if plan.get("use"):
+            await step("use2", use)
     finally:
         stack.uninstall()
 
@@ -150,8 +174,16 @@ def check(plan) -> Result:
         r.bad("C09:first-write-not-rst", f"{hw[0][1].hex()}; plan {plan}")
     # --- wire: what the NCP's EZSP layer saw
     reqs = stack.ncp.requests
+    pw = out.get("probe_window")
+    if pw:
+        r.cls("legacy-window-probe")
+        for p in out.get("probe_frames", []):
+            if not (len(p) == 3 and p[1] & 0x80 == 0 and p[2] == 0xF1):
+                r.bad("C09:request-after-reset-not-legacy-framed", f"readCounters issued between reset() and version() went out as {p.hex()}; plan {plan}")
+        if not out.get("probe_frames"):
+            r.bad("C09:harness:probe-wrote-nothing", f"plan {plan}")
     if not late:
-        bad = [q for q in reqs if q[1] is None]
+        bad = [q for q in reqs if q[1] is None and not (pw and pw[0] - 1e-9 <= q[0] < pw[1] - 1e-9)]
         if bad:
             kind = "startup_reset:socket" if plan["second"] == "startup" and plan["path"] == "socket" and plan.get("spont2") else "generic"
             r.bad(f"C09:wrongly-framed-request:{kind}", f"NCP v{V} could not parse {bad[0][3].hex()} at t={bad[0][0]:.4f}; plan {plan}")
@@ -166,6 +198,8 @@ def check(plan) -> Result:
             continue
         if f.get("kind") != "DATA" or f.get("retx"):
             continue
+        if pw and pw[0] - 1e-9 <= tm < pw[1] - 1e-9:
+            continue  # the legacy-window probe is judged above
         p = f["payload"]
         if expect_legacy:
             if not (len(p) == 4 and p[1] == 0x00 and p[2] == 0x00):
@@ -214,6 +248,10 @@ def plans(draw):
     if draw(st.booleans()):
         plan["fh"] = draw(st.lists(fate, max_size=30))
         plan["fn"] = draw(st.lists(fate, max_size=30))
+    else:
+        plan["use"] = draw(st.booleans())
+        if plan["second"] == "reset":
+            plan["probe"] = draw(st.booleans())
     return plan
 
 
@@ -237,6 +275,10 @@ def enum_plans(quick):
                     if path == "socket":
                         p["spont"] = sp
                     out.append(p)
+                    out.append(dict(p, use=True))
+                    if second == "reset":
+                        out.append(dict(p, use=True, probe=True))
+                        out.append(dict(p, probe=True))
     depth = 10 if quick else 70
     vs = [4, 7, 8, 13, 14, 15] if quick else VERSIONS
     for v in vs:
